@@ -161,6 +161,7 @@ func properties() map[string]*PropertySpec {
 		Harnesses: []HarnessSpec{
 			nat("H_C09_step", "step", "inductive step: any connection id n in 1..2^63-1 and any request number k >= 1 (all 64-bit values)", ""),
 			eng("H_C09_ids", "ids", "1..2 connections x 1..2 requests, every child-first/spawner-first choice at each go statement", ""),
+			eng("H_C09_overlap", "ids", "2 connections x 1 request whose set-up may overlap: child-first/spawner-first for the connection goroutines plus one preemption at any synchronisation point (lock, wait group, atomic operation)", ""),
 			eng("H_C09_ids3", "ids", "1..3 connections x 1..2 requests; child-first/spawner-first explored for the connection goroutines only", ""),
 		}})
 	add(&PropertySpec{ID: "C11",
@@ -180,7 +181,7 @@ func properties() map[string]*PropertySpec {
 		Functions: "(*Server).Run (validateAddrPort, Listen, listenerReady), (*Server).Ready, (*Server).Stop",
 		Outside:   []string{"address forms: the ten rows listed in the harness; the resolver's answer and Listen's outcome are symbolic", "after Stop the flag is not required to drop (the property speaks of the interval until Stop is called)"},
 		Harnesses: []HarnessSpec{
-			eng("H_C17_ready", "run ok", "10 address forms x resolver answer x Listen outcome x 0..2 concurrent Ready pollers x spawn-order schedules", ""),
+			eng("H_C17_ready", "run ok", "optionally (TLS) a silent peer that never starts its handshake connects first; 10 address forms x resolver answer x Listen outcome x 0..2 concurrent Ready pollers x spawn-order schedules", ""),
 		}})
 	td := func(name, reach, bound, tiers string) HarnessSpec {
 		return HarnessSpec{Name: name, Pkg: "testdirectory", Native: true, Reach: []string{reach}, Bound: bound, Tiers: tiers,
